@@ -83,11 +83,29 @@ class Model:
         return [q[1] if simple(q) else None for q in self.q]
 
 
+def plain_type(s):
+    from models.scan import decode
+
+    return decode(s, keep_simple=False).lower()
+
+
+def spell(rng, t):
+    """a media type in one of the spellings CSS allows for an identifier: any letter case, simple escapes of non-hex letters, hex escapes"""
+    r = rng.random()
+    if r < 0.55:
+        return rng.choice([t, t.upper(), t.capitalize()])
+    i = rng.randrange(len(t))
+    ch = t[i]
+    if r < 0.8 and ch not in 'abcdefABCDEF':
+        return t[:i] + '\\' + ch + t[i + 1:]
+    return t[:i] + '\\%x ' % ord(rng.choice([ch, ch.upper()])) + t[i + 1:]
+
+
 def rand_query(rng, g):
     r = rng.random()
     if r < 0.6:
         t = rng.choice(TYPES)
-        return (None, t, []), rng.choice([t, t.upper(), t.capitalize()])
+        return (None, t, []), spell(rng, t)
     q = g.query()
     if simple(q) or (q[1] is None and not q[2]):
         return (None, q[1] or 'tv', []), q[1] or 'tv'
@@ -131,7 +149,8 @@ def observe(ctx, cssutils, ml, m, case, step, owner_obj):
             problems.append(('iteration', n_iter, len(m.q)))
         items = [ml.item(i) for i in range(len(m.q) + 1)]
         exp_items = [t for t in m.types()] + [None]
-        if [x.lower() if isinstance(x, str) and x else None for x in items] != [t if t else None for t in exp_items]:
+        # (item() gives the medium as it was written: letter case and escapes are spelling)
+        if [plain_type(x) if isinstance(x, str) and x else None for x in items] != [t if t else None for t in exp_items]:
             problems.append(('item', items, exp_items))
         text = ml.mediaText
         if not m.q:
@@ -217,7 +236,7 @@ def run_history(ctx, cssutils, rng, ops_in=None, owner_in=None, init_in=None, ra
                 if not present:
                     continue
                 t = rng.choice(present)
-                op.append(rng.choice([t, t.upper()]))
+                op.append(spell(rng, t))
             elif k == 'delete-absent':
                 absent = [t for t in TYPES if t not in m.types()]
                 op.append(rng.choice(absent))
@@ -256,7 +275,7 @@ def run_history(ctx, cssutils, rng, ops_in=None, owner_in=None, init_in=None, ra
                     ctx.violation('lockstep.accept-reject', dict(case, failed_at=step), {'op': op, 'accepted': accepted, 'expected_accepted': exp_acc, 'mediaText': ml.mediaText})
                     return
             elif k == 'delete':
-                t = op[1].lower()
+                t = plain_type(op[1])
                 before_len = ml.length
                 try:
                     ml.deleteMedium(op[1])
@@ -266,7 +285,11 @@ def run_history(ctx, cssutils, rng, ops_in=None, owner_in=None, init_in=None, ra
                     ctx.count('rejections')
                 exp_acc = m.delete(t)
                 if accepted != exp_acc:
-                    ctx.violation('lockstep.accept-reject', dict(case, failed_at=step), {'op': op, 'accepted': accepted, 'expected_accepted': exp_acc, 'mediaText': ml.mediaText})
+                    import re
+
+                    # (a hex escape in a name handed to the API, not parsed from CSS text, is a recorded finding: the same shape as KF-C10-02)
+                    fx = ['api-medium.hex-escape'] if re.search(r'\\[0-9a-fA-F]', op[1]) and exp_acc and not accepted else []
+                    ctx.violation('lockstep.accept-reject', dict(case, failed_at=step), {'op': op, 'accepted': accepted, 'expected_accepted': exp_acc, 'mediaText': ml.mediaText}, features=fx)
                     return
             elif k == 'delete-absent':
                 before_text = ml.mediaText
